@@ -1,0 +1,31 @@
+//go:build verif
+
+package hashtrie
+
+import "github.com/gauss-project/aurorafs/pkg/file/pipeline"
+
+// VerifState is what the verification harness reads off a hashTrieWriter between calls:
+// a copy of the nine level cursors, the full flag, the buffer length and a copy of
+// buffer[0:cursors[1]] (all level data that is live after a ChainWrite).
+type VerifState struct {
+	Cursors []int
+	Full    bool
+	BufLen  int
+	Live    []byte
+}
+
+// VerifPeek returns the state of a writer made by NewHashTrieWriter; ok is false for any other
+// ChainWriter. Read-only: the writer is not modified.
+func VerifPeek(w pipeline.ChainWriter) (st VerifState, ok bool) {
+	h, ok := w.(*hashTrieWriter)
+	if !ok {
+		return VerifState{}, false
+	}
+	st.Cursors = append([]int(nil), h.cursors...)
+	st.Full = h.full
+	st.BufLen = len(h.buffer)
+	if c := h.cursors[1]; c >= 0 && c <= len(h.buffer) {
+		st.Live = append([]byte(nil), h.buffer[:c]...)
+	}
+	return st, true
+}
